@@ -567,6 +567,7 @@ func runBounded(p *Program, pc *PropConfig, res *checkResult) {
 		return
 	}
 	allKnown := true
+	reported := 0
 	for _, key := range order {
 		name := "case@" + key
 		if f := matchFinding(findings, pc.ID, "bounded:"+h.test, name); f != nil {
@@ -575,6 +576,12 @@ func runBounded(p *Program, pc *PropConfig, res *checkResult) {
 			continue
 		}
 		allKnown = false
+		reported++
+		if reported > 10 {
+			// the first ten failing cases get a VIOLATION line and a replay file each; the rest are counted
+			res.violations = append(res.violations, "bounded:"+h.test+" "+name+": "+fails[key])
+			continue
+		}
 		path := writeSimpleReplay(pc.ID, "bounded:"+h.test, name, fails[key])
 		attachReplay(path, map[string]interface{}{"command": rr["command"], "confirmed": true, "output": "GOVC-FAIL " + key + " :: " + fails[key], "input": key}, true)
 		addViolationLine(res, fmt.Sprintf("VIOLATION property=%s replay=%s", pc.ID, path))
